@@ -53,7 +53,18 @@ func (m *machine) ctrXor(dst, src, key, iv []value) ([]value, value) {
 	out := make([]value, len(src))
 	for i := range src {
 		ks := m.ctrKeystream(key, iv, i)
-		out[i] = fromTerm(m.ts.Bin(OpBvXor, m.toTerm(src[i], 8), ks))
+		st := m.toTerm(src[i], 8)
+		// (x xor ks) xor ks = x syntactically: decrypting what this model encrypted gives back the
+		// very terms, so that checksums and comparisons downstream need no solver work
+		if st.Op == OpBvXor && st.Args[1] == ks {
+			out[i] = fromTerm(st.Args[0])
+			continue
+		}
+		if st.Op == OpBvXor && st.Args[0] == ks {
+			out[i] = fromTerm(st.Args[1])
+			continue
+		}
+		out[i] = fromTerm(m.ts.Bin(OpBvXor, st, ks))
 	}
 	copy(dst, out)
 	return dst, iface{}
